@@ -58,7 +58,8 @@ DIR_NAMES = {
 }
 CONTENTS = ["valid", "len0", "len31", "len33", "len64", "absent", "dir"]
 PASSWORDS = ["none", "str", "empty", "raises", "deferred", "deferred-late", "coroutine", "deferred-fail"]
-CHALLENGES = ["correct", "wrong-hash", "truncated", "lowercase", "garbled", "5xx", "hangup"]
+CHALLENGES = ["correct", "wrong-hash", "truncated", "lowercase", "garbled", "5xx", "hangup",
+              "empty-hash", "prefix-hash", "extended-hash", "wrong-last-byte"]
 PW = "s3cret pass"
 
 S2C = b"Tor safe cookie authentication server-to-controller hash"
@@ -164,6 +165,15 @@ class _Tor(object):
             text = "AUTHCHALLENGE SERVERHASH=%s SERVERNONCE=%s" % (H, N)
         elif mode == "wrong-hash":
             bad = bytes([shash[0] ^ 1]) + shash[1:]
+            text = "AUTHCHALLENGE SERVERHASH=%s SERVERNONCE=%s" % (bad.hex().upper(), N)
+        elif mode == "empty-hash":
+            text = "AUTHCHALLENGE SERVERHASH= SERVERNONCE=%s" % N
+        elif mode == "prefix-hash":
+            text = "AUTHCHALLENGE SERVERHASH=%s SERVERNONCE=%s" % (H[:32], N)
+        elif mode == "extended-hash":
+            text = "AUTHCHALLENGE SERVERHASH=%s00 SERVERNONCE=%s" % (H, N)
+        elif mode == "wrong-last-byte":
+            bad = shash[:-1] + bytes([shash[-1] ^ 0x80])
             text = "AUTHCHALLENGE SERVERHASH=%s SERVERNONCE=%s" % (bad.hex().upper(), N)
         elif mode == "truncated":
             text = "AUTHCHALLENGE SERVERHASH=%s" % H
